@@ -28,6 +28,7 @@ SKIP = {
     "tsss": "self-distance NaN", "true_angular": "self-distance is float32 max",
     "alternative_jaccard": "unbounded -log transform of jaccard (infinite for disjoint rows)", "alternative_hellinger": "unbounded -log transform",
 }
+TRUE_METRIC_MAXIMA = {"correlation": 2, "cosine": 2, "hellinger": 1, "jaccard": 1, "bit_jaccard": 1, "dice": 1}
 BINARY = {"hamming", "jaccard", "dice", "matching", "kulsinski", "rogerstanimoto", "russellrao", "sokalsneath", "sokalmichener", "yule"}
 POSITIVE = {"hellinger", "symmetric_kl", "jensen_shannon", "jensen-shannon", "symmetric-kl", "symmetric_kullback_liebler", "braycurtis", "canberra",
             "kantorovich_1d", "kantorovich-1d", "wasserstein_1d", "wasserstein-1d", "circular_kantorovich", "circular_wasserstein"}
@@ -158,11 +159,13 @@ def make_case(rng, npr, m, reg, signed=False):
         except Exception as e:
             return dict(metric=m, X=X, kw=kw, error="%s: %s" % (type(e).__name__, str(e)[:120]))
         D = np.where(np.eye(n, dtype=bool), 0.0, D) if np.all(np.abs(np.diag(D)) < 1e-6) else D
-        bound = U.DISCONNECTION_DISTANCES.get(m) if hasattr(U, "DISCONNECTION_DISTANCES") else None
+        # the metrics whose maximum is their default disconnection distance -- fixed HERE (the mathematical maxima), not read from the
+        # implementation's table: an entry added there must not make the generator avoid the very data that exposes it
+        bound = TRUE_METRIC_MAXIMA.get(m)
         if bound is not None and D.max() >= bound * (1 - 1e-6):
             continue   # the named metric's default disconnection distance would cut an entry the precomputed fit keeps: C04's subject
         if rows_distinct(D, k, data_class(m) != "binary"):
-            return dict(metric=m, X=X, kw=kw, D=D, n=n, k=k, r=rng.choice([1.0, 1.0, 0.5, 0.0]), lc=rng.choice([1, 1, 2]))
+            return dict(metric=m, X=X, kw=kw, D=D, n=n, k=k, r=rng.choice([1.0, 1.0, 0.5, 0.0]), lc=rng.choice([1, 1, 2, 1.5, 2.25]))
     return dict(metric=m, X=X, kw=kw, error="no data set with pairwise-distinct distances found in 200 draws")
 
 
